@@ -21,7 +21,7 @@ variable {H W : Nat} {root : Val}
 /-- the enumeration loop of `n0list._find` -/
 theorem term_findL_loop (sp : Pos) (par : PRef) (rl : Bool) (found tok : Str) (rest : List Str) (M F : Nat)
     (hD : ∀ i it f, M ≤ f → f < F → TermOut (fun _ => True) root
-      (dispatchD f root (childRef root par (.idx i)) it rest rl (found ++ bracket (natStr i))))
+      (dispatchD f root sp (childRef root par (.idx i)) it rest rl (found ++ bracket (natStr i))))
     (hL : ∀ i f, M ≤ f → f < F → TermOut (fun _ => True) root
       (findL f root sp rest (childRef root par (.idx i)) rl (found ++ bracket (natStr i)))) :
     ∀ (items : List Val) (i : Nat) (acc : List Val) (fst : Option Res) (f : Nat), M + items.length + 1 ≤ f → f ≤ F →
@@ -61,25 +61,24 @@ theorem term_findL_loop (sp : Pos) (par : PRef) (rl : Bool) (found tok : Str) (r
 def TermSLp (H W : Nat) (root : Val) (sp : Pos) (rl : Bool) (fuel : Nat) : Prop :=
   ∀ (toks : List Str) (par : PRef) (found : Str) (g : Nat),
     (∀ t ∈ toks, TermPTok t) → (toks = [] → found = slash) →
-    TermRef H W root par → SafeRef PlainKey root par → TermFound found g →
+    TermRef H W root par → SafeRef PlainKey root par → TermFound found g → termHgtRef root par ≤ H →
     (W + 4) * H + 3 * toks.length + 1 ≤ fuel →
     TermOut (fun _ => True) root (findL fuel root sp toks par rl found)
 
-theorem term_dispatch_plain (hW : 1 ≤ W) (f : Nat) (elem : PRef) (ev : Val) (rest : List Str) (hrne : rest ≠ []) (rl : Bool)
+theorem term_dispatch_plain (hW : 1 ≤ W) (sp : Pos) (f : Nat) (elem : PRef) (ev : Val) (rest : List Str) (hrne : rest ≠ []) (rl : Bool)
     (found : Str) (g : Nat) (hrest : ∀ t ∈ rest, TermPTok t) (hB : TermRef H W root elem) (hK : SafeRef PlainKey root elem)
     (hfd : TermFound found g) (hh : termHgtRef root elem ≤ H) (hf : (W + 4) * H + 2 * rest.length + 1 ≤ f) :
-    TermOut (fun _ => True) root (dispatchD f root elem ev rest rl found) := by
+    TermOut (fun _ => True) root (dispatchD f root sp elem ev rest rl found) := by
   unfold dispatchD
   split
-  · rename_i p _
-    have hmul : (W + 4) * termHgtRef root elem ≤ (W + 4) * H := Nat.mul_le_mul_left _ hh
-    have := term_plain H W hW root p rl f true rest elem found g hrest (fun h => absurd h hrne) hB hK hfd (by omega)
+  · have hmul : (W + 4) * termHgtRef root elem ≤ (W + 4) * H := Nat.mul_le_mul_left _ hh
+    have := term_plain H W hW root sp rl f true rest elem found g hrest (fun h => absurd h hrne) hB hK hfd (by omega)
     exact this.mono (fun _ _ => trivial)
   · exact TermOut_err (by decide)
 
 theorem term_findL_plain_step (hW : 1 ≤ W) (sp : Pos) (rl : Bool) (fuel : Nat)
     (ih : ∀ m, m < fuel → TermSLp H W root sp rl m) : TermSLp H W root sp rl fuel := by
-  intro toks par found g htoks hnil hparB hparK hfd hfuel
+  intro toks par found g htoks hnil hparB hparK hfd hparH hfuel
   obtain ⟨f, rfl⟩ : ∃ f, fuel = f + 1 := ⟨fuel - 1, by omega⟩
   cases toks with
   | nil =>
@@ -101,7 +100,11 @@ theorem term_findL_plain_step (hW : 1 ≤ W) (sp : Pos) (rl : Bool) (fuel : Nat)
         intro k idx hk hs
         rw [findL]
         simp only [hpv, hs, isEmpty_false_of_ne hk, Bool.not_false, if_true]
-        exact ⟨rfl, trivial⟩
+        -- the name is handed to the dict-side search (fix C06-f)
+        have hmul : (W + 4) * termHgtRef root par ≤ (W + 4) * H := Nat.mul_le_mul_left _ hparH
+        have := term_plain H W hW root sp rl f true (tok :: rest) par found g htoks (fun h => by cases h) hparB hparK hfd
+          (by simp only [List.length_cons]; omega)
+        exact this.mono (fun _ _ => trivial)
       cases htok with
       | key hk => exact hname tok .none hk.ne hk.keyTok.split
       | @keyIdx k i hk => exact hname k _ hk.ne (split_bracket k (intStr i) (Or.inr hk) (intStr_idxExpr i))
@@ -126,7 +129,7 @@ theorem term_findL_plain_step (hW : 1 ≤ W) (sp : Pos) (rl : Bool) (fuel : Nat)
                                  found := found, notFound := Option.none })
                   else
                     match items.getD n Val.none with
-                    | .dict .. => dispatchD f root (childRef root par' (.idx n)) (items.getD n Val.none) rest rl
+                    | .dict .. => dispatchD f root sp (childRef root par' (.idx n)) (items.getD n Val.none) rest rl
                         (found ++ bracket (intStr i))
                     | .list .. => findL f root sp rest (childRef root par' (.idx n)) rl (found ++ bracket (intStr i))
                     | _ => .error .TypeError) := by
@@ -151,10 +154,10 @@ theorem term_findL_plain_step (hW : 1 ≤ W) (sp : Pos) (rl : Bool) (fuel : Nat)
                   · rename_i c hc; exact (hchild' n c hc).2
                   · omega
                 split
-                · exact term_dispatch_plain hW f _ _ rest hrne rl _ (g + 1) hrest (TermRef_child hpar' _) (SafeRef_child hK' _)
+                · exact term_dispatch_plain hW sp f _ _ rest hrne rl _ (g + 1) hrest (TermRef_child hpar' _) (SafeRef_child hK' _)
                     (hfd.idx i) hh (by omega)
                 · exact ih f (by omega) rest _ _ (g + 1) hrest (fun h => absurd h hrne) (TermRef_child hpar' _)
-                    (SafeRef_child hK' _) (hfd.idx i) (by omega)
+                    (SafeRef_child hK' _) (hfd.idx i) hh (by omega)
                 · exact TermOut_err (by decide)
         cases pv with
         | list c xs => exact hcont par xs (Or.inl ⟨rfl, rfl⟩)
@@ -174,25 +177,24 @@ theorem term_findL_plain (hW : 1 ≤ W) (sp : Pos) (rl : Bool) : ∀ fuel, TermS
 
 def TermSL (H W : Nat) (root : Val) (sp : Pos) (rl : Bool) (fuel : Nat) : Prop :=
   ∀ (toks : List Str) (par : PRef) (found : Str) (g : Nat),
-    SafeRef PlainKey root par → TermRef H W root par → TermFound found g →
+    SafeRef PlainKey root par → TermRef H W root par → TermFound found g → termHgtRef root par ≤ H →
     termPotL H W toks g ≤ fuel →
     TermOut (fun _ => True) root (findL fuel root sp toks par rl found)
 
-theorem term_dispatch (ctx : TermCtx H W root) (f : Nat) (elem : PRef) (ev : Val) (rest : List Str) (rl : Bool)
+theorem term_dispatch (ctx : TermCtx H W root) (sp : Pos) (f : Nat) (elem : PRef) (ev : Val) (rest : List Str) (rl : Bool)
     (found : Str) (g : Nat)
     (hK : SafeRef PlainKey root elem) (hB : TermRef H W root elem) (hfd : TermFound found g) (hh : termHgtRef root elem ≤ H)
     (hf : termPot H W rest H g ≤ f) :
-    TermOut (fun _ => True) root (dispatchD f root elem ev rest rl found) := by
+    TermOut (fun _ => True) root (dispatchD f root sp elem ev rest rl found) := by
   unfold dispatchD
   split
-  · rename_i p _
-    have := termPot_mono H W rest _ _ g g hh (Nat.le_refl _)
-    exact term_main ctx p rl f true rest elem found g hK hB hfd (by omega)
+  · have := termPot_mono H W rest _ _ g g hh (Nat.le_refl _)
+    exact term_main ctx sp rl f true rest elem found g hK hB hfd (by omega)
   · exact TermOut_err (by decide)
 
 theorem term_findL_step (ctx : TermCtx H W root) (sp : Pos) (rl : Bool) (fuel : Nat)
     (ih : ∀ m, m < fuel → TermSL H W root sp rl m) : TermSL H W root sp rl fuel := by
-  intro toks par found g hparK hparB hfd hfuel
+  intro toks par found g hparK hparB hfd hparH hfuel
   have hW := ctx.hW
   obtain ⟨f, rfl⟩ : ∃ f, fuel = f + 1 := ⟨fuel - 1, by have := termPotL_pos H W toks g; omega⟩
   cases toks with
@@ -205,7 +207,7 @@ theorem term_findL_step (ctx : TermCtx H W root) (sp : Pos) (rl : Bool) (fuel : 
     · obtain ⟨ht, _, hl⟩ := hfd.tokens
       simp only [termPotL, termR] at hfuel
       exact term_findL_plain hW sp rl f (tokenize found) (.at sp) slash 0 ht (fun _ => rfl)
-        (TermRef_at ctx.hgt ctx.wd sp) (SafeRef_at ctx.plain sp) (TermFound_slash 0) (by omega)
+        (TermRef_at ctx.hgt ctx.wd sp) (SafeRef_at ctx.plain sp) (TermFound_slash 0) (termHgtRef_at_le ctx.hgt sp) (by omega)
   | cons tok rest =>
     simp only [termPotL] at hfuel
     cases hpv : valOf root par with
@@ -233,13 +235,17 @@ theorem term_findL_step (ctx : TermCtx H W root) (sp : Pos) (rl : Bool) (fuel : 
           split
           · rename_i c hc; exact (hchild' n c hc).2
           · omega
+        -- a name / a condition is handed to the dict-side search (fix C06-f)
+        have hdeleg : TermOut (fun _ => True) root (findD f root sp false true (tok :: rest) par rl found) := by
+          have := termPot_mono H W (tok :: rest) _ _ g g hparH (Nat.le_refl _)
+          exact term_main ctx sp rl f true (tok :: rest) par found g hparK hparB hfd (by omega)
         rw [findL]
         simp only [hpv, hsplit]
         split
-        · exact ⟨rfl, trivial⟩
+        · exact hdeleg
         · cases idx with
           | none => exact TermOut_err (by decide)
-          | cond k op v => exact TermOut_err (by decide)
+          | cond k op v => exact hdeleg
           | str s =>
             simp only
             split
@@ -271,11 +277,11 @@ theorem term_findL_step (ctx : TermCtx H W root) (sp : Pos) (rl : Bool) (fuel : 
                     (Nat.le_refl _)
                   · intro i it f' hf' _
                     obtain ⟨h2, h3, h4⟩ := helem par (Or.inl ⟨hl, rfl⟩) i
-                    exact term_dispatch ctx f' _ it rest rl _ (g + 1) h2 h3
+                    exact term_dispatch ctx sp f' _ it rest rl _ (g + 1) h2 h3
                       (hfd.idx (i : Int)) h4 (by omega)
                   · intro i f' hf' hf'F
-                    obtain ⟨h2, h3, _⟩ := helem par (Or.inl ⟨hl, rfl⟩) i
-                    exact ih f' (by omega) rest _ _ (g + 1) h2 h3 (hfd.idx (i : Int))
+                    obtain ⟨h2, h3, h4⟩ := helem par (Or.inl ⟨hl, rfl⟩) i
+                    exact ih f' (by omega) rest _ _ (g + 1) h2 h3 (hfd.idx (i : Int)) h4
                       (by omega)
             · split
               · rename_i e he; rw [n0eval_err he]; exact TermOut_err (by decide)
@@ -297,7 +303,7 @@ theorem term_findL_step (ctx : TermCtx H W root) (sp : Pos) (rl : Bool) (fuel : 
                                            found := found, notFound := Option.none })
                             else
                               match items.getD n Val.none with
-                              | .dict .. => dispatchD f root (childRef root par' (.idx n)) (items.getD n Val.none) rest rl
+                              | .dict .. => dispatchD f root sp (childRef root par' (.idx n)) (items.getD n Val.none) rest rl
                                   (found ++ bracket (intStr i))
                               | .list .. => findL f root sp rest (childRef root par' (.idx n)) rl (found ++ bracket (intStr i))
                               | _ => .error .TypeError) := by
@@ -311,9 +317,9 @@ theorem term_findL_step (ctx : TermCtx H W root) (sp : Pos) (rl : Bool) (fuel : 
                         split
                         · exact ⟨rfl, trivial⟩
                         · split
-                          · exact term_dispatch ctx f _ _ rest rl _ (g + 1) h2 h3
+                          · exact term_dispatch ctx sp f _ _ rest rl _ (g + 1) h2 h3
                               (hfd.idx i) h4 (by omega)
-                          · exact ih f (by omega) rest _ _ (g + 1) h2 h3 (hfd.idx i)
+                          · exact ih f (by omega) rest _ _ (g + 1) h2 h3 (hfd.idx i) h4
                               (by omega)
                           · exact TermOut_err (by decide)
                   cases pv with
@@ -357,7 +363,7 @@ theorem term_getCore (fuel : Nat) (root : Val) (xp : Str) (dflt : Val) (raise rl
       TermOut (fun _ => True) root (findL fuel root [] (tokenize s) (.at []) rl slash) := by
     intro s hle
     exact term_findL ctx [] rl fuel (tokenize s) (.at []) slash 0
-      (SafeRef_at ctx.plain []) (TermRef_at ctx.hgt ctx.wd []) (TermFound_slash 0) hle
+      (SafeRef_at ctx.plain []) (TermRef_at ctx.hgt ctx.wd []) (TermFound_slash 0) (termHgtRef_at_le ctx.hgt []) hle
   unfold termFuel at hf
   simp only at hf
   have hfin : ∀ (raise : Bool) (dflt : Val) (x : PyM (Val × Res)), TermOut (fun _ => True) root x → ∀ (a : Val × PyM Val),
